@@ -125,6 +125,8 @@ type Script struct {
 	} `json:"settle"`
 	// Then: a further update after the settled pair has been picked up, touching the certificate file only:
 	// "" (none), "alt-chain" (same leaf and key, re-issued intermediate), "renewal" (new leaf over the same key)
+	// Churn: that many further complete in-place rotations, back to back, while the handshakers keep going
+	Churn int `json:"churn,omitempty"`
 	Then      string `json:"then,omitempty"`
 	ThenStyle string `json:"then_style,omitempty"` // inplace, rename
 }
@@ -177,7 +179,7 @@ func gen(t *rapid.T) Script {
 				next++
 			}
 		}
-		if next >= nPairs-2 {
+		if next >= nPairs-5 {
 			break
 		}
 	}
@@ -187,6 +189,9 @@ func gen(t *rapid.T) Script {
 		s.Settle.Style = rapid.SampledFrom([]string{"inplace-cert-first", "inplace-key-first", "rename-cert-first", "rename-key-first"}).Draw(t, "settle")
 	}
 	s.Settle.Pair = next + 1
+	if s.Layout != "k8s" && rapid.IntRange(0, 3).Draw(t, "churn") == 0 {
+		s.Churn = rapid.IntRange(20, 60).Draw(t, "nchurn")
+	}
 	if s.Layout != "k8s" {
 		s.Settle.Blockwise = (s.Settle.Style == "inplace-key-first") && rapid.Bool().Draw(t, "blockwise")
 		s.Then = rapid.SampledFrom([]string{"", "", "alt-chain", "renewal"}).Draw(t, "then")
@@ -323,11 +328,22 @@ func handshakeSerial(cw *certwatcher.CertWatcher) (int64, error) {
 	b.SetDeadline(time.Now().Add(20 * time.Second))
 	errc := make(chan error, 1)
 	go func() { errc <- srv.Handshake() }()
+	// (the server side may be stuck in GetCertificate, where no connection deadline reaches it)
+	waitSrv := func() error {
+		select {
+		case err := <-errc:
+			return err
+		case <-time.After(5 * time.Second):
+			return fmt.Errorf("the server side of the handshake does not return (stuck in GetCertificate?)")
+		}
+	}
 	if err := cli.Handshake(); err != nil {
-		<-errc
+		if serr := waitSrv(); serr != nil {
+			return 0, fmt.Errorf("%v; server: %v", err, serr)
+		}
 		return 0, err
 	}
-	if err := <-errc; err != nil {
+	if err := waitSrv(); err != nil {
 		return 0, err
 	}
 	pc := cli.ConnectionState().PeerCertificates
@@ -420,6 +436,50 @@ func exec(s Script) (v *vstat.Violation, classes []string) {
 			}
 		}
 	}
+	if s.Churn > 0 {
+		// reloads meet handshakes in progress as often as possible
+		a, b := nPairs-1, nPairs-2
+		// besides the handshakers, four callers ask for the certificate as fast as they can (what a busy
+		// server's handshakes do collectively)
+		spinStop := make(chan struct{})
+		spinDone := make(chan struct{}, 4)
+		for g := 0; g < 4; g++ {
+			go func() {
+				defer func() { spinDone <- struct{}{} }()
+				for {
+					select {
+					case <-spinStop:
+						return
+					default:
+					}
+					cw.GetCertificate(nil)
+				}
+			}()
+		}
+		defer func() {
+			close(spinStop)
+			for g := 0; g < 4; g++ {
+				select {
+				case <-spinDone:
+				case <-time.After(10 * time.Second):
+					if v == nil {
+						v = vstat.Violf("flat|safety|get-certificate-never-returns", "after %d rotations under load a GetCertificate call has not returned for 10 s (the callers and the reloader block each other)", s.Churn)
+					}
+					return
+				}
+			}
+		}()
+		for i := 0; i < s.Churn; i++ {
+			pk := a
+			if i%2 == 1 {
+				pk = b
+			}
+			w.apply(Step{Op: "inplace", File: "key", Content: "full", Pair: pk})
+			w.apply(Step{Op: "inplace", File: "cert", Content: "full", Pair: pk})
+			time.Sleep(2 * time.Millisecond)
+		}
+		classes = append(classes, "many-rotations-under-handshake-load")
+	}
 	// settle: install a fresh valid pair
 	k := s.Settle.Pair
 	switch s.Settle.Style {
@@ -458,8 +518,26 @@ func exec(s Script) (v *vstat.Violation, classes []string) {
 	var lastErr error
 	deadline := 3 * time.Second
 	// presented: serials of the chain the watcher hands to crypto/tls right now
+	stuck := false
 	presented := func() ([]int64, error) {
-		c, err := cw.GetCertificate(nil)
+		if stuck {
+			return nil, fmt.Errorf("GetCertificate does not return")
+		}
+		type res struct {
+			c   *tls.Certificate
+			err error
+		}
+		rc := make(chan res, 1)
+		go func() { c, err := cw.GetCertificate(nil); rc <- res{c, err} }()
+		var c *tls.Certificate
+		var err error
+		select {
+		case r := <-rc:
+			c, err = r.c, r.err
+		case <-time.After(10 * time.Second):
+			stuck = true
+			return nil, fmt.Errorf("GetCertificate does not return")
+		}
 		if err != nil || c == nil {
 			return nil, err
 		}
@@ -540,6 +618,9 @@ func exec(s Script) (v *vstat.Violation, classes []string) {
 	sv := safety
 	nh := handshakes
 	hsMu.Unlock()
+	if stuck {
+		return vstat.Violf("flat|safety|get-certificate-never-returns", "a GetCertificate call has not returned for 10 s: callers and the reloader block each other (history: %d rotations under load, %+v)", s.Churn, s.Steps), classes
+	}
 	if sv != nil {
 		sv.Sig = cls + "|" + sv.Sig
 		return sv, classes
@@ -587,7 +668,7 @@ func exec(s Script) (v *vstat.Violation, classes []string) {
 
 func TestReload(t *testing.T) {
 	getPairs()
-	col.Mandatory("layout:flat", "layout:k8s", "settle:swap", "settle:inplace-key-first", "settle:rename-cert-first", "broken-intermediate-state", "two-update-styles", "then:alt-chain", "then:renewal", "bundle-written-block-by-block", "paths-not-in-clean-form")
+	col.Mandatory("layout:flat", "layout:k8s", "settle:swap", "settle:inplace-key-first", "settle:rename-cert-first", "broken-intermediate-state", "two-update-styles", "then:alt-chain", "then:renewal", "bundle-written-block-by-block", "paths-not-in-clean-form", "many-rotations-under-handshake-load")
 	vstat.Run(t, vstat.Spec[Script]{Col: col, Quick: 150, Thorough: 4000, Gen: gen,
 		Exec: func(s Script) *vstat.Violation {
 			v, cl := exec(s)
